@@ -7,6 +7,7 @@ Exactness is stated on the key set of each check (the entities listed), for ever
 -/
 import WnVerif.Model.Validate
 import WnVerif.Lemmas.Dict
+import WnVerif.Lemmas.Counter
 namespace WnVerif.Props.C18
 open WnVerif.Validate WnVerif.Doc
 
@@ -200,6 +201,103 @@ theorem C18_W402 (l : Lexicon) (id : String) :
   · rintro (⟨p, hp, rfl, h⟩ | ⟨p, hp, rfl, h⟩)
     · exact Or.inl ⟨p, ⟨hp, h⟩, rfl⟩
     · exact Or.inr ⟨p, ⟨hp, h⟩, rfl⟩
+
+/-- W302: exactly the synsets whose (real) ILI is used by at least two synsets of the lexicon -/
+theorem C18_W302 (l : Lexicon) (id : String) :
+    id ∈ (W302 l).map (·.1) ↔ ∃ ss ∈ l.synsets, ss.id = id ∧
+      2 ≤ ((l.synsets.filter (fun y => y.ili != "" && y.ili != "in")).map (·.ili)).count ss.ili := by
+  unfold W302
+  rw [mem_keys_dictOf]
+  simp only [List.map_map, List.mem_map, List.mem_filter, Function.comp, List.contains_iff_mem, exists_multiples_iff]
+  constructor
+  · rintro ⟨ss, ⟨hss, hc⟩, rfl⟩; exact ⟨ss, hss, rfl, hc⟩
+  · rintro ⟨ss, hss, rfl, hc⟩; exact ⟨ss, ⟨hss, hc⟩, rfl⟩
+
+/-- W307: exactly the synsets having a definition text that occurs at least twice in the lexicon -/
+theorem C18_W307 (l : Lexicon) (id : String) :
+    id ∈ (W307 l).map (·.1) ↔ ∃ ss ∈ l.synsets, ss.id = id ∧ ∃ d ∈ ss.definitions,
+      2 ≤ (l.synsets.flatMap (fun y => y.definitions.map (·.text))).count d.text := by
+  unfold W307
+  rw [mem_keys_dictOf]
+  simp only [List.map_map, List.mem_map, List.mem_filter, Function.comp, List.contains_iff_mem, exists_multiples_iff,
+    List.any_eq_true]
+  constructor
+  · rintro ⟨ss, ⟨hss, d, hd, hc⟩, rfl⟩; exact ⟨ss, hss, rfl, d, hd, hc⟩
+  · rintro ⟨ss, hss, rfl, d, hd, hc⟩; exact ⟨ss, ⟨hss, d, hd, hc⟩, rfl⟩
+
+/-- W202: exactly the senses whose synset is referenced by at least two senses of the same entry -/
+theorem C18_W202 (l : Lexicon) (id : String) :
+    id ∈ (W202 l).map (·.1) ↔ ∃ e ∈ l.entries, ∃ s ∈ e.senses, s.id = id ∧ 2 ≤ (e.senses.map (·.synset)).count s.synset := by
+  unfold W202
+  rw [mem_keys_dictOf]
+  simp only [List.map_flatMap, List.mem_flatMap, List.map_map, List.mem_map, List.mem_filter, Function.comp,
+    List.contains_iff_mem, exists_multiples_iff]
+  constructor
+  · rintro ⟨e, he, s, ⟨hs, hc⟩, rfl⟩; exact ⟨e, he, s, hs, rfl, hc⟩
+  · rintro ⟨e, he, s, hs, rfl, hc⟩; exact ⟨e, he, s, ⟨hs, hc⟩, rfl⟩
+
+/-- W203: exactly the lemma forms that some synset lists at least twice (two entries with the same
+lemma in one synset) -/
+theorem C18_W203 (l : Lexicon) (form : String) :
+    form ∈ (W203 l).map (·.1) ↔ ∃ y : String,
+      2 ≤ (l.entries.flatMap (fun e => e.senses.map (fun s => (lemmaForm e, s.synset)))).count (form, y) := by
+  unfold W203
+  rw [mem_keys_dictOf]
+  simp only [List.map_map, List.mem_map, Function.comp]
+  constructor
+  · rintro ⟨⟨⟨f, y⟩, c⟩, he, rfl⟩
+    refine ⟨y, ?_⟩
+    have := (mem_multiples _ (f, y) c).mp he
+    simp only
+    omega
+  · rintro ⟨y, hy⟩
+    exact ⟨((form, y), _), (mem_multiples _ (form, y) _).mpr ⟨rfl, hy⟩, rfl⟩
+
+/-- W403: exactly the sources having two relations with the same type, target and dc:type -/
+theorem C18_W403 (l : Lexicon) (id : String) :
+    id ∈ (W403 l).map (·.1) ↔ ∃ typ tgt dc,
+      2 ≤ ((senseRels l).map (fun p => (p.1.id, p.2.relType, p.2.target, dcType p.2)) ++
+           (synsetRels l).map (fun p => (p.1.id, p.2.relType, p.2.target, dcType p.2))).count (id, typ, tgt, dc) := by
+  unfold W403
+  rw [mem_keys_dictOf]
+  simp only [List.map_map, List.mem_map, Function.comp]
+  constructor
+  · rintro ⟨e, he, rfl⟩
+    obtain ⟨⟨src, typ, tgt, dc⟩, c⟩ := e
+    refine ⟨typ, tgt, dc, ?_⟩
+    have := (mem_multiples _ (src, typ, tgt, dc) c).mp he
+    simp only
+    omega
+  · rintro ⟨typ, tgt, dc, hc⟩
+    exact ⟨((id, typ, tgt, dc), _), (mem_multiples _ (id, typ, tgt, dc) _).mpr ⟨rfl, hc⟩, rfl⟩
+
+/-- W501: exactly the synsets with a hypernym whose part of speech differs from theirs (the part
+of speech of the last synset carrying the target id; a dangling target is not reported) -/
+theorem C18_W501 (l : Lexicon) (id : String) :
+    id ∈ (W501 l).map (·.1) ↔ ∃ p ∈ synsetRels l, p.1.id = id ∧ p.2.relType = "hypernym" ∧
+      ∃ tp, ((l.synsets.filter (fun ss => ss.id == p.2.target)).getLast?).map (·.pos) = some tp ∧ p.1.pos ≠ tp := by
+  have key : ∀ t, (l.synsets.filter (fun ss => ss.id == t)).getLast? =
+      l.synsets.reverse.find? (fun ss => ss.id == t) := by
+    intro t; rw [← List.head?_reverse, ← List.filter_reverse, List.head?_filter]
+  unfold W501
+  rw [mem_keys_dictOf]
+  simp only [List.map_filterMap, List.mem_filterMap, key]
+  constructor
+  · rintro ⟨p, hp, hx⟩
+    split at hx
+    · rename_i hh
+      split at hx
+      · rename_i tp htp
+        split at hx
+        · rename_i hne
+          simp at hx
+          exact ⟨p, hp, hx, by simpa using hh, tp, htp, by simpa using hne⟩
+        · simp at hx
+      · simp at hx
+    · simp at hx
+  · rintro ⟨p, hp, rfl, hh, tp, htp, hne⟩
+    refine ⟨p, hp, ?_⟩
+    simp [hh, htp, hne]
 
 /-- W404: a target is listed exactly when some (regular) relation into it lacks its reverse;
 the reported context is such a missing reverse relation -/
